@@ -26,12 +26,14 @@ RULE = ("instances of 8 registered RegDom, 4 frozen IceRegDom, a TymeDom and an 
         "stream interleaves malformed inputs (truncation at one or at every prefix length, trailing bytes, the record twice, a "
         "non-dict top-level value; for json, cbor and mgpk), decodes of the same record twice (bytes / bytearray / memoryview / "
         "str; results equal, distinct, sharing nothing; one changed in place, then a third decode) with clean round trips of other classes before the case's own round "
-        "trip; four classes with their own _dictify/_datify hook pair (wire form differs from the field dict; non-frozen strict "
+        "trip; four classes whose fields have non-None defaults, default_factory containers, a default nested object or no "
+        "default at all hold None in exactly those fields; four classes with their own _dictify/_datify hook pair (wire form differs from the field dict; non-frozen strict "
         "and tolerant, TymeDom-based, frozen) round-trip in the history steps; non-trivial = a nested "
         "object, a non-ASCII string, an int beyond 2^53 or a list/dict field")
 MODELLED = ["json / cbor2 / msgpack as an abstract codec with dec (enc v) = Some v on the common domain (checked per case: the "
             "library's decode of its own encoding must equal _asdict())",
-            "dataclasses.asdict / fields / the generated __init__ (all fields default None) / typing.get_type_hints",
+            "dataclasses.asdict / fields / the generated __init__ (a missing member gets None in the model; every serialisation "
+            "carries all fields, so defaults only matter when a decoder drops a member) / typing.get_type_hints",
             "Python values as trees: int as Z, float by its 64 bits, str as code points, dict as ordered pair list"]
 
 SRC = '''
@@ -206,6 +208,40 @@ class C28UIceBag(IceTymeDom):
     _origin: C28TPoint = None
     _s: str = None
 
+# fields whose defaults are NOT None (a value, a default_factory container, a default nested object) and a field
+# without default: a None held there is a value and must come back as None
+from dataclasses import field
+
+@registerify
+@dataclass
+class C28Limit(RegDom):
+    high: Any = 100
+    low: int = 0
+    tags: list = field(default_factory=lambda: ["t"])
+    meta: dict = field(default_factory=lambda: {"k": 1})
+    leaf: C28LeafA = field(default_factory=lambda: C28LeafA(a=1))
+    name: str = "x"
+
+@registerify
+@dataclass
+class C28Must(RegDom):
+    must: Any
+    opt: Any = 5
+
+@namify
+@registerify
+@dataclass
+class C28TLimit(TymeDom):
+    high: Any = 100
+    origin: C28TPoint = field(default_factory=lambda: C28TPoint(a=0, b=0))
+    label: str = "tl"
+
+@registerify
+@dataclass(frozen=True)
+class C28IceLimit(IceRegDom):
+    high: Any = 100
+    tags: list = field(default_factory=lambda: ["t"])
+
 # classes with their own _dictify / _datify hook pair: the dict (wire) form differs from the field dict
 class _SpanHooks:
     def _dictify(self):
@@ -278,13 +314,19 @@ SCHEMA += [("UMid", [("_leaf", 0), ("_v", None), ("w", None)]),
            ("UIce", [("_leaf", 8), ("_l", None), ("_m", None)]),
            ("UBag", [("_origin", 12), ("_n", None), ("value", None)]),
            ("UIceBag", [("_origin", 12), ("_s", None)])]
+# 27..30: fields with non-None defaults, default_factory, a default nested object, and a field without default
+DEFAULTED = [len(SCHEMA) + i for i in range(4)]
+SCHEMA += [("Limit", [("high", None), ("low", None), ("tags", None), ("meta", None), ("leaf", 0), ("name", None)]),
+           ("Must", [("must", None), ("opt", None)]),
+           ("TLimit", [("high", None), ("origin", 12), ("label", None)]),
+           ("IceLimit", [("high", None), ("tags", None)])]
 NCLS = len(SCHEMA)       # the classes whose round trip is also evaluated by the Coq model
 # 27..30: classes with a _dictify/_datify hook pair (wire form {lo, len}); they take part in the history streams and the
 # direct oracle only (a hook is arbitrary code; the model knows asdict / fields-driven datify)
 HOOKED = [NCLS, NCLS + 1, NCLS + 2, NCLS + 3]
 SCHEMA += [("Span", [("lo", None), ("hi", None)]), ("LaxSpan", [("lo", None), ("hi", None)]),
            ("TymeSpan", [("lo", None), ("hi", None)]), ("IceSpan", [("lo", None), ("hi", None)])]
-FROZEN = {8, 9, 10, 11, 14, 16, 19, 24, 26, NCLS + 3}
+FROZEN = {8, 9, 10, 11, 14, 16, 19, 24, 26, 30, NCLS + 3}
 _classes = None
 
 
@@ -310,6 +352,7 @@ def classes():
         out += [Bag, IceBag]
         out += [m.C28LBag, m.C28NBag, m.C28LIce, m.C28TBag2, m.C28Holder, m.C28LCan]
         out += [m.C28UMid, m.C28UIce, m.C28UBag, m.C28UIceBag]
+        out += [m.C28Limit, m.C28Must, m.C28TLimit, m.C28IceLimit]
         out += [m.C28Span, m.C28LaxSpan, m.C28TymeSpan, m.C28IceSpan]
         _classes = out
     return _classes
@@ -550,6 +593,14 @@ def directed():
             {"obj": obj(13, leaf=tp, v=["l", []]), "mut": [[["f", "leaf"]], "attr", "a", ["i", 6]]},
             {"obj": obj(14, leaf=tp, v=["l", []]), "mut": [[["f", "v"]], "append", ["i", 6]]}]
     out += directed_seqs()
+    # None in fields whose default is not None / a default_factory / a default nested object / absent
+    out += [{"obj": obj(27)}, {"obj": obj(27, high=["n"], low=["i", 3], tags=["l", []], meta=["d", []], leaf=obj(0), name=["s", "n"])},
+            {"obj": obj(27, high=["i", 0], low=["n"], tags=["n"], meta=["n"], leaf=["n"], name=["n"])},
+            {"obj": obj(28)}, {"obj": obj(28, must=["n"], opt=["i", 1])}, {"obj": obj(28, must=["i", 1], opt=["n"])},
+            {"obj": obj(29)}, {"obj": obj(29, high=["n"], origin=["n"], label=["s", "z"])},
+            {"obj": obj(30)}, {"obj": obj(30, high=["n"], tags=["l", [["n"]]])},
+            {"obj": obj(0), "seq": [["twice", 0, obj(27), "str"], ["twice", 0, obj(28), "str"], ["twice", 0, obj(29), "bytearray"],
+                                    ["twice", 1, obj(27), "bytes"], ["twice", 2, obj(28), "bytes"]]}]
     # fields named with a leading underscore
     out += [{"obj": ["o", 23, [["_leaf", obj(0, a=["i", 5], b=["s", "é"])], ["_v", ["l", [["i", 1]]]], ["w", ["n"]]]]},
             {"obj": ["o", 24, [["_leaf", obj(8, a=["l", [["i", 1]]])], ["_l", ["l", [["s", "a"]]]], ["_m", ["d", [["k", ["i", 1]]]]]]]},
@@ -653,7 +704,7 @@ def mutation_cases(rng, k):
 
 
 def rand_typed(rng):
-    c = rng.choice([0, 1, 2, 4, 5, 6, 8, 9, 10, 12, 13, 14, 15, 16, 17, 18, 19, 20, 21, 22, 23, 24, 25, 26])
+    c = rng.choice([0, 1, 2, 4, 5, 6, 8, 9, 10, 12, 13, 14, 15, 16, 17, 18, 19, 20, 21, 22, 23, 24, 25, 26, 27, 28, 29, 30])
     return rand_obj(rng, c, 0.0, 0.0)
 
 
@@ -717,6 +768,19 @@ def _directed_seqs():
     return out
 
 
+def defaulted_cases(rng, k):
+    """objects of the classes with non-None defaults, None in their fields with probability 0.4"""
+    out = []
+    for _ in range(k):
+        c = rng.choice(DEFAULTED)
+        o = rand_obj(rng, c, 0.0, 0.0)
+        for fx in o[2]:
+            if rng.random() < 0.4:
+                fx[1] = ["n"]
+        out.append({"obj": o})
+    return out
+
+
 def generate(rng, tier):
     n = 500 if tier == "quick" else 4500
     out = [{"obj": rand_obj(rng, rng.randrange(NCLS))} for _ in range(n)]
@@ -725,6 +789,7 @@ def generate(rng, tier):
     out += history_cases(rng, 60 if tier == "quick" else 600)
     out += mutation_cases(rng, 240 if tier == "quick" else 2400)
     out += seq_cases(rng, 150 if tier == "quick" else 1500)
+    out += defaulted_cases(rng, 120 if tier == "quick" else 1200)
     return out
 
 
